@@ -140,7 +140,11 @@ def merge_chunk(
     # an empty dataframe, the output index is `int64` in all cases, regardless
     # of input dtypes.
     if len(out) == 0 and empty_index_dtype is not None:
-        out.index = out.index.astype(empty_index_dtype)
+        try:
+            out.index = out.index.astype(empty_index_dtype)
+        except (TypeError, ValueError):
+            # e.g. an empty DatetimeIndex where the result index is float64
+            out.index = pd.Index([], dtype=empty_index_dtype, name=out.index.name)
     return out
 
 
